@@ -434,4 +434,428 @@ theorem memmove_done (m0 : Mem) (d s n : Nat) (hms : Mapped m0 s n) (hmd : Mappe
     obtain ⟨m', e, hh⟩ := memcpy_fwd m0 d s n (by omega) hms hmd
     exact ⟨m', e, hh.done⟩
 
+
+/-! ## C strings: scanning -/
+
+theorem cstr_nil {m : Mem} {a : Nat} : CStr m a [] ↔ m a = some 0#8 := by
+  simp [CStr, holds_cons, Holds.nil]
+
+theorem cstr_cons {m : Mem} {a : Nat} {b : Byte} {l : List Byte} :
+    CStr m a (b :: l) ↔ m a = some b ∧ b ≠ 0#8 ∧ CStr m (a + 1) l := by
+  simp only [CStr, List.cons_append, holds_cons, List.mem_cons, not_or]
+  constructor
+  · rintro ⟨⟨h1, h2⟩, h3, h4⟩; exact ⟨h1, fun e => h3 e.symm, h2, h4⟩
+  · rintro ⟨h1, h2, h3, h4⟩; exact ⟨⟨h1, h3⟩, fun e => h2 e.symm, h4⟩
+
+theorem scanNul_spec (m : Mem) (l : List Byte) (s fuel : Nat) (h : CStr m s l) (hf : l.length < fuel) :
+    scanNul m fuel s = some (s + l.length + 1) := by
+  induction l generalizing s fuel with
+  | nil =>
+    obtain ⟨f, rfl⟩ : ∃ f, fuel = f + 1 := ⟨fuel - 1, by simp at hf; omega⟩
+    simp [scanNul, cstr_nil.mp h]
+  | cons b l ih =>
+    obtain ⟨f, rfl⟩ : ∃ f, fuel = f + 1 := ⟨fuel - 1, by simp at hf; omega⟩
+    obtain ⟨h1, h2, h3⟩ := cstr_cons.mp h
+    simp only [List.length_cons] at hf
+    simp [scanNul, h1, h2, ih (s + 1) f h3 (by omega)]
+    omega
+
+theorem strlen_eq (m : Mem) (l : List Byte) (s fuel : Nat) (h : CStr m s l) (hf : l.length < fuel) :
+    strlen m s fuel = some l.length := by
+  simp [strlen, scanNul_spec m l s fuel h hf]
+  omega
+
+theorem strnlenLoop_long (m : Mem) (l : List Byte) (s r len : Nat) (h : Holds m s l) (h0 : 0#8 ∉ l)
+    (hr : r ≤ l.length) : strnlenLoop m r len s = some (len + r) := by
+  induction l generalizing s r len with
+  | nil => simp at hr; subst hr; rfl
+  | cons b l ih =>
+    cases r with
+    | zero => rfl
+    | succ r =>
+      rw [holds_cons] at h
+      simp only [List.mem_cons, not_or] at h0
+      have hb : ¬ b = 0#8 := fun e => h0.1 e.symm
+      simp [strnlenLoop, h.1, hb, ih (s + 1) r (len + 1) h.2 h0.2 (by simpa using hr)]
+      omega
+
+theorem strnlenLoop_cstr (m : Mem) (l : List Byte) (s r len : Nat) (h : CStr m s l) :
+    strnlenLoop m r len s = some (len + min l.length r) := by
+  induction l generalizing s r len with
+  | nil =>
+    cases r with
+    | zero => rfl
+    | succ r => simp [strnlenLoop, cstr_nil.mp h]
+  | cons b l ih =>
+    cases r with
+    | zero => simp [strnlenLoop]
+    | succ r =>
+      obtain ⟨h1, h2, h3⟩ := cstr_cons.mp h
+      simp [strnlenLoop, h1, h2, ih (s + 1) r (len + 1) h3]
+      omega
+
+/-! ## strchrnul / strchr / strrchr -/
+
+/-- scanning stops at the first byte that is NUL or `c` -/
+theorem strchrnulLoop_spec (m : Mem) (c : Byte) (p : List Byte) (x : Byte) (s fuel : Nat)
+    (h : Holds m s (p ++ [x])) (h0 : 0#8 ∉ p) (hc : c ∉ p) (hx : x = 0#8 ∨ x = c)
+    (hf : p.length < fuel) : strchrnulLoop m c fuel s = some (s + p.length) := by
+  induction p generalizing s fuel with
+  | nil =>
+    obtain ⟨f, rfl⟩ : ∃ f, fuel = f + 1 := ⟨fuel - 1, by simp at hf; omega⟩
+    simp only [List.nil_append, holds_cons] at h
+    rcases hx with hx | hx <;> simp [strchrnulLoop, h.1, hx]
+  | cons b p ih =>
+    obtain ⟨f, rfl⟩ : ∃ f, fuel = f + 1 := ⟨fuel - 1, by simp at hf; omega⟩
+    simp only [List.cons_append, holds_cons] at h
+    simp only [List.mem_cons, not_or] at h0 hc
+    have hb0 : ¬ b = 0#8 := fun e => h0.1 e.symm
+    have hbc : ¬ b = c := fun e => hc.1 e.symm
+    simp only [List.length_cons] at hf
+    simp [strchrnulLoop, h.1, hb0, hbc, ih (s + 1) f h.2 h0.2 hc.2 (by omega)]
+    omega
+
+theorem first_split {c : Byte} {l : List Byte} (h : c ∈ l) : ∃ p r, l = p ++ c :: r ∧ c ∉ p := by
+  induction l with
+  | nil => simp at h
+  | cons b l ih =>
+    by_cases hb : b = c
+    · exact ⟨[], l, by simp [hb], by simp⟩
+    · have : c ∈ l := by
+        rcases List.mem_cons.mp h with e | e
+        · exact absurd e.symm hb
+        · exact e
+      obtain ⟨p, r, e, hp⟩ := ih this
+      exact ⟨b :: p, r, by simp [e], by simp [hp]; exact fun e => hb e.symm⟩
+
+/-- strchr on a C string: the terminator for `c = 0` -/
+theorem strchr_nul (m : Mem) (l : List Byte) (s : Nat) (ch : Int) (fuel : Nat) (h : CStr m s l)
+    (hc : toChar ch = 0#8) (hf : l.length < fuel) : strchr m s ch fuel = some (some (s + l.length)) := by
+  have e := strchrnulLoop_spec m (toChar ch) l 0#8 s fuel h.1 h.2 (by rw [hc]; exact h.2) (Or.inl rfl) hf
+  have hx : m (s + l.length) = some 0#8 := by
+    have := (holds_append.mp h.1).2; rw [holds_cons] at this; exact this.1
+  simp only [strchr, strchrnul, e, bind, Option.bind, rd_eq, hx]
+  simp [hc]
+
+theorem strchr_first (m : Mem) (p : List Byte) (s : Nat) (ch : Int) (fuel : Nat)
+    (h : Holds m s (p ++ [toChar ch])) (h0 : 0#8 ∉ p) (hp : toChar ch ∉ p)
+    (hf : p.length < fuel) : strchr m s ch fuel = some (some (s + p.length)) := by
+  have e := strchrnulLoop_spec m (toChar ch) p (toChar ch) s fuel h h0 hp (Or.inr rfl) hf
+  have hx : m (s + p.length) = some (toChar ch) := by
+    have := (holds_append.mp h).2; rw [holds_cons] at this; exact this.1
+  simp only [strchr, strchrnul, e, bind, Option.bind, rd_eq, hx]
+  by_cases hz : toChar ch = 0#8 <;> simp [hz]
+
+theorem strchr_none (m : Mem) (l : List Byte) (s : Nat) (ch : Int) (fuel : Nat) (h : CStr m s l)
+    (hc : toChar ch ∉ l) (hz : toChar ch ≠ 0#8) (hf : l.length < fuel) :
+    strchr m s ch fuel = some none := by
+  have e := strchrnulLoop_spec m (toChar ch) l 0#8 s fuel h.1 h.2 hc (Or.inl rfl) hf
+  have hx : m (s + l.length) = some 0#8 := by
+    have := (holds_append.mp h.1).2; rw [holds_cons] at this; exact this.1
+  simp only [strchr, strchrnul, e, bind, Option.bind, rd_eq, hx]
+  simp [hz]
+
+theorem cstr_suffix {m : Mem} {s : Nat} {p r : List Byte} (h : CStr m s (p ++ r)) :
+    CStr m (s + p.length) r := by
+  obtain ⟨h1, h2⟩ := h
+  rw [List.append_assoc, holds_append] at h1
+  exact ⟨h1.2, fun e => h2 (List.mem_append_right _ e)⟩
+
+theorem cstr_prefix_holds {m : Mem} {s : Nat} {p r : List Byte} (h : CStr m s (p ++ r)) :
+    Holds m s p ∧ 0#8 ∉ p := by
+  obtain ⟨h1, h2⟩ := h
+  rw [List.append_assoc, holds_append] at h1
+  exact ⟨h1.1, fun e => h2 (List.mem_append_left _ e)⟩
+
+theorem strrchrLoop_none (m : Mem) (l : List Byte) (s : Nat) (ch : Int) (fuel g : Nat) (found : Option Nat)
+    (h : CStr m s l) (hc : toChar ch ∉ l) (hz : toChar ch ≠ 0#8) (hf : l.length < fuel) (hg : 0 < g) :
+    strrchrLoop m ch fuel g s found = some found := by
+  obtain ⟨g, rfl⟩ : ∃ k, g = k + 1 := ⟨g - 1, by omega⟩
+  simp [strrchrLoop, strchr_none m l s ch fuel h hc hz hf]
+
+theorem strrchrLoop_last (m : Mem) (p r : List Byte) (s : Nat) (ch : Int) (fuel g : Nat) (found : Option Nat)
+    (h : CStr m s (p ++ toChar ch :: r)) (hr : toChar ch ∉ r) (hz : toChar ch ≠ 0#8)
+    (hf : (p ++ toChar ch :: r).length < fuel) (hg : p.length + 1 < g) :
+    strrchrLoop m ch fuel g s found = some (some (s + p.length)) := by
+  induction hn : p.length using Nat.strongRecOn generalizing p s g found with
+  | _ n ih =>
+    obtain ⟨g, rfl⟩ : ∃ k, g = k + 1 := ⟨g - 1, by omega⟩
+    by_cases hp : toChar ch ∈ p
+    · obtain ⟨p1, p2, e, hp1⟩ := first_split hp
+      subst e
+      have hs1 : Holds m s (p1 ++ [toChar ch]) ∧ 0#8 ∉ p1 ++ [toChar ch] := by
+        have : (p1 ++ toChar ch :: p2) ++ toChar ch :: r = (p1 ++ [toChar ch]) ++ (p2 ++ toChar ch :: r) := by simp
+        rw [this] at h; exact cstr_prefix_holds h
+      have e1 := strchr_first m p1 s ch fuel hs1.1 (fun e => hs1.2 (List.mem_append_left _ e)) hp1
+        (by simp at hf ⊢; omega)
+      have hsuf : CStr m (s + p1.length + 1) (p2 ++ toChar ch :: r) := by
+        have : (p1 ++ toChar ch :: p2) ++ toChar ch :: r = (p1 ++ [toChar ch]) ++ (p2 ++ toChar ch :: r) := by simp
+        rw [this] at h
+        have := cstr_suffix h
+        simpa [Nat.add_assoc] using this
+      have := ih p2.length (by subst hn; simp; omega) p2 (s + p1.length + 1) g (some (s + p1.length)) hsuf
+        (by simp at hf ⊢; omega) (by subst hn; simp at hg; omega) rfl
+      simp only [strrchrLoop, e1]
+      simp only [bind, Option.bind]
+      rw [this]
+      simp only [List.length_append, List.length_cons] at hn
+      simp only [Option.some.injEq]; omega
+    · have hs1 : Holds m s (p ++ [toChar ch]) ∧ 0#8 ∉ p ++ [toChar ch] := by
+        have : p ++ toChar ch :: r = (p ++ [toChar ch]) ++ r := by simp
+        rw [this] at h; exact cstr_prefix_holds h
+      have e1 := strchr_first m p s ch fuel hs1.1 (fun e => hs1.2 (List.mem_append_left _ e)) hp
+        (by simp at hf ⊢; omega)
+      have hsuf : CStr m (s + p.length + 1) r := by
+        have : p ++ toChar ch :: r = (p ++ [toChar ch]) ++ r := by simp
+        rw [this] at h
+        have := cstr_suffix h
+        simpa [Nat.add_assoc] using this
+      have := strrchrLoop_none m r (s + p.length + 1) ch fuel g (some (s + p.length)) hsuf hr hz
+        (by simp at hf ⊢; omega) (by omega)
+      simp only [strrchrLoop, e1]
+      simp only [bind, Option.bind]
+      rw [this, hn]
+
+
+/-! ## frame lemmas: a write outside a region does not disturb it -/
+
+theorem holds_upd_outside {m : Mem} {a x : Nat} {l : List Byte} (v : Byte) (h : Holds m a l)
+    (hx : x < a ∨ a + l.length ≤ x) : Holds (upd m x v) a l := by
+  intro i hi; rw [upd_other _ _ (by omega)]; exact h i hi
+
+theorem cstr_upd_outside {m : Mem} {a x : Nat} {l : List Byte} (v : Byte) (h : CStr m a l)
+    (hx : x < a ∨ a + l.length + 1 ≤ x) : CStr (upd m x v) a l :=
+  ⟨holds_upd_outside v h.1 (by simp; omega), h.2⟩
+
+theorem holds_of_sameOutside {m m' : Mem} {a d n : Nat} {l : List Byte} (h : Holds m a l)
+    (ho : SameOutside m m' d n) (hd : a + l.length ≤ d ∨ d + n ≤ a) : Holds m' a l := by
+  intro i hi; rw [ho (a + i) (by omega)]; exact h i hi
+
+theorem cstr_of_sameOutside {m m' : Mem} {a d n : Nat} {l : List Byte} (h : CStr m a l)
+    (ho : SameOutside m m' d n) (hd : a + l.length + 1 ≤ d ∨ d + n ≤ a) : CStr m' a l :=
+  ⟨holds_of_sameOutside h.1 ho (by simp; omega), h.2⟩
+
+theorem sameOutside_upd_cons {m m' : Mem} {d n : Nat} {v : Byte} (ho : SameOutside (upd m d v) m' (d + 1) n) :
+    SameOutside m m' d (n + 1) := by
+  intro j hj; rw [ho j (by omega), upd_other _ _ (by omega)]
+
+theorem holds_cons_of_upd {m m' : Mem} {d n : Nat} {v : Byte} {l : List Byte}
+    (ho : SameOutside (upd m d v) m' (d + 1) n) (hh : Holds m' (d + 1) l) : Holds m' d (v :: l) := by
+  rw [holds_cons]; refine ⟨?_, hh⟩; rw [ho d (by omega)]; simp
+
+/-! ## strcpy -/
+
+theorem strcpyLoop_spec (l : List Byte) (m : Mem) (d s fuel : Nat) (hs : CStr m s l)
+    (hd : Mapped m d (l.length + 1)) (hdis : Disjoint d (l.length + 1) s (l.length + 1))
+    (hf : l.length < fuel) :
+    ∃ m', strcpyLoop fuel m d s = some m' ∧ Holds m' d (l ++ [0#8]) ∧ SameOutside m m' d (l.length + 1) := by
+  induction l generalizing m d s fuel with
+  | nil =>
+    obtain ⟨f, rfl⟩ : ∃ f, fuel = f + 1 := ⟨fuel - 1, by simp at hf; omega⟩
+    have hd0 : (m d).isSome := by simpa using hd 0 (by omega)
+    refine ⟨upd m d 0#8, by simp [strcpyLoop, cstr_nil.mp hs, wr_upd hd0], ?_, ?_⟩
+    · simp [holds_cons, Holds.nil]
+    · intro j hj; simp at hj; exact upd_other _ _ (by omega)
+  | cons b l ih =>
+    obtain ⟨f, rfl⟩ : ∃ f, fuel = f + 1 := ⟨fuel - 1, by simp at hf; omega⟩
+    obtain ⟨h1, h2, h3⟩ := cstr_cons.mp hs
+    simp only [List.length_cons] at hd hdis hf
+    rw [mapped_succ] at hd
+    unfold Disjoint at hdis
+    obtain ⟨m', e, hh, ho⟩ := ih (upd m d b) (d + 1) (s + 1) f
+      (cstr_upd_outside b h3 (by omega)) (mapped_upd hd.2) (by unfold Disjoint; omega) (by omega)
+    refine ⟨m', by simp [strcpyLoop, h1, h2, wr_upd hd.1, e], ?_, sameOutside_upd_cons ho⟩
+    simpa using holds_cons_of_upd ho hh
+
+/-! ## strncpy -/
+
+/-- the source has at least `n` characters before any NUL: exactly they are copied -/
+theorem strncpyLoop_long (p : List Byte) (m : Mem) (d s : Nat) (hs : Holds m s p) (h0 : 0#8 ∉ p)
+    (hd : Mapped m d p.length) (hdis : Disjoint d p.length s p.length) :
+    ∃ m', strncpyLoop p.length m d s = some m' ∧ Holds m' d p ∧ SameOutside m m' d p.length := by
+  induction p generalizing m d s with
+  | nil => exact ⟨m, rfl, Holds.nil _ _, SameOutside.refl _ _ _⟩
+  | cons b p ih =>
+    rw [holds_cons] at hs
+    simp only [List.mem_cons, not_or] at h0
+    have hb : ¬ b = 0#8 := fun e => h0.1 e.symm
+    simp only [List.length_cons] at hd hdis
+    rw [mapped_succ] at hd
+    unfold Disjoint at hdis
+    obtain ⟨m', e, hh, ho⟩ := ih (upd m d b) (d + 1) (s + 1)
+      (holds_upd_outside b hs.2 (by omega)) h0.2 (mapped_upd hd.2) (by unfold Disjoint; omega)
+    exact ⟨m', by simp [strncpyLoop, hs.1, hb, wr_upd hd.1, e], holds_cons_of_upd ho hh, sameOutside_upd_cons ho⟩
+
+/-- the source string is shorter than `n`: it is copied and padded with NULs up to `n` -/
+theorem strncpyLoop_short (l : List Byte) (m : Mem) (d s n : Nat) (hs : CStr m s l) (hn : l.length < n)
+    (hd : Mapped m d n) (hdis : Disjoint d n s (l.length + 1)) :
+    ∃ m', strncpyLoop n m d s = some m' ∧ Holds m' d (l ++ List.replicate (n - l.length) 0#8) ∧
+      SameOutside m m' d n := by
+  induction l generalizing m d s n with
+  | nil =>
+    obtain ⟨k, rfl⟩ : ∃ k, n = k + 1 := ⟨n - 1, by simp at hn; omega⟩
+    rw [mapped_succ] at hd
+    obtain ⟨m', e, hh, ho, _⟩ := memsetLoop_spec 0#8 k (upd m d 0#8) (d + 1) (mapped_upd hd.2)
+    refine ⟨m', by simp [strncpyLoop, cstr_nil.mp hs, wr_upd hd.1, e], ?_, sameOutside_upd_cons ho⟩
+    simpa [List.replicate_succ] using holds_cons_of_upd ho hh
+  | cons b l ih =>
+    obtain ⟨k, rfl⟩ : ∃ k, n = k + 1 := ⟨n - 1, by simp at hn; omega⟩
+    obtain ⟨h1, h2, h3⟩ := cstr_cons.mp hs
+    simp only [List.length_cons] at hn hdis
+    rw [mapped_succ] at hd
+    unfold Disjoint at hdis
+    obtain ⟨m', e, hh, ho⟩ := ih (upd m d b) (d + 1) (s + 1) k
+      (cstr_upd_outside b h3 (by omega)) (by omega) (mapped_upd hd.2) (by unfold Disjoint; omega)
+    refine ⟨m', by simp [strncpyLoop, h1, h2, wr_upd hd.1, e], ?_, sameOutside_upd_cons ho⟩
+    have := holds_cons_of_upd ho hh
+    simpa using this
+
+/-! ## strlcpy -/
+
+theorem strlcpyLoop_spec (l : List Byte) (m : Mem) (d s n : Nat) (hs : CStr m s l) (hn : 0 < n)
+    (hd : Mapped m d (min l.length (n - 1)))
+    (hdis : Disjoint d (min l.length (n - 1)) s (l.length + 1)) :
+    ∃ m', strlcpyLoop n m d s = some (m', d + min l.length (n - 1), s + min l.length (n - 1)) ∧
+      Holds m' d (l.take (n - 1)) ∧ SameOutside m m' d (min l.length (n - 1)) := by
+  induction l generalizing m d s n with
+  | nil =>
+    match n, hn with
+    | 1, _ => exact ⟨m, rfl, by simp [Holds.nil], SameOutside.refl _ _ _⟩
+    | k + 2, _ => exact ⟨m, by simp [strlcpyLoop, cstr_nil.mp hs], by simp [Holds.nil], SameOutside.refl _ _ _⟩
+  | cons b l ih =>
+    match n, hn with
+    | 1, _ => exact ⟨m, rfl, by simp [Holds.nil], SameOutside.refl _ _ _⟩
+    | k + 2, _ =>
+      obtain ⟨h1, h2, h3⟩ := cstr_cons.mp hs
+      have e1 : min (b :: l).length (k + 2 - 1) = min l.length k + 1 := by simp
+      rw [e1] at hd hdis ⊢
+      rw [mapped_succ] at hd
+      simp only [List.length_cons] at hdis
+      unfold Disjoint at hdis
+      obtain ⟨m', e, hh, ho⟩ := ih (upd m d b) (d + 1) (s + 1) (k + 1)
+        (cstr_upd_outside b h3 (by omega)) (by omega) (by simpa using mapped_upd hd.2)
+        (by unfold Disjoint; simp; omega)
+      simp only [Nat.add_sub_cancel] at e hh ho
+      refine ⟨m', ?_, ?_, sameOutside_upd_cons ho⟩
+      · simp [strlcpyLoop, h1, h2, wr_upd hd.1, e]; omega
+      · have := holds_cons_of_upd ho hh
+        simpa using this
+
+
+/-! ## strcmp / strncmp / strcasecmp / strncasecmp -/
+
+/-- two characters compare equal in the loop: `f(*s1) == f(*s2)` on `unsigned char` -/
+def EqF (f : Int → Int) (a b : Byte) : Prop := f (ucInt a) = f (ucInt b)
+
+/-- pointwise relation between two byte lists of the same length -/
+inductive Rel2 (R : Byte → Byte → Prop) : List Byte → List Byte → Prop
+  | nil : Rel2 R [] []
+  | cons {a b : Byte} {l1 l2 : List Byte} : R a b → Rel2 R l1 l2 → Rel2 R (a :: l1) (b :: l2)
+
+theorem diffAtF_eq (f : Int → Int) (m : Mem) (s1 s2 : Nat) (x y : Byte) (h1 : m s1 = some x) (h2 : m s2 = some y) :
+    diffAtF f m s1 s2 = some (f (ucInt x) - f (ucInt y)) := by
+  simp [diffAtF, h1, h2]
+
+theorem strcmpLoop_spec (f : Int → Int) (m : Mem) (p1 p2 : List Byte) (x y : Byte) (s1 s2 fuel : Nat)
+    (h1 : Holds m s1 (p1 ++ [x])) (h2 : Holds m s2 (p2 ++ [y])) (hp : Rel2 (EqF f) p1 p2)
+    (h0 : 0#8 ∉ p1) (hxy : x = 0#8 ∨ ¬ EqF f x y) (hf : p1.length < fuel) :
+    strcmpLoop f m fuel s1 s2 = some (f (ucInt x) - f (ucInt y)) := by
+  induction hp generalizing s1 s2 fuel with
+  | nil =>
+    obtain ⟨g, rfl⟩ : ∃ g, fuel = g + 1 := ⟨fuel - 1, by simp at hf; omega⟩
+    simp only [List.nil_append, holds_cons] at h1 h2
+    have hd := diffAtF_eq f m s1 s2 x y h1.1 h2.1
+    rcases hxy with hx | hx
+    · simp [strcmpLoop, h1.1, hx]; simpa [hx] using hd
+    · unfold EqF at hx
+      by_cases hz : x = 0#8
+      · simp [strcmpLoop, h1.1, hz]; simpa [hz] using hd
+      · simp [strcmpLoop, h1.1, h2.1, hz, hx, hd]
+  | @cons a b l1 l2 hab _ ih =>
+    obtain ⟨g, rfl⟩ : ∃ g, fuel = g + 1 := ⟨fuel - 1, by simp at hf; omega⟩
+    simp only [List.cons_append, holds_cons] at h1 h2
+    simp only [List.mem_cons, not_or] at h0
+    have ha : ¬ a = 0#8 := fun e => h0.1 e.symm
+    unfold EqF at hab
+    simp only [List.length_cons] at hf
+    simp [strcmpLoop, h1.1, h2.1, ha, hab, ih (s1 + 1) (s2 + 1) g h1.2 h2.2 h0.2 (by omega)]
+
+theorem strncmpLoop_spec (f : Int → Int) (m : Mem) (p1 p2 : List Byte) (x y : Byte) (s1 s2 k : Nat)
+    (h1 : Holds m s1 (p1 ++ [x])) (h2 : Holds m s2 (p2 ++ [y])) (hp : Rel2 (EqF f) p1 p2)
+    (h0 : 0#8 ∉ p1) (hxy : p1.length = k ∨ x = 0#8 ∨ ¬ EqF f x y) (hk : p1.length ≤ k) :
+    strncmpLoop f m k s1 s2 = some (f (ucInt x) - f (ucInt y)) := by
+  induction hp generalizing s1 s2 k with
+  | nil =>
+    simp only [List.nil_append, holds_cons] at h1 h2
+    have hd := diffAtF_eq f m s1 s2 x y h1.1 h2.1
+    cases k with
+    | zero => simpa [strncmpLoop] using hd
+    | succ k =>
+      rcases hxy with hx | hx | hx
+      · simp at hx
+      · simp [strncmpLoop, h1.1, hx]; simpa [hx] using hd
+      · unfold EqF at hx
+        by_cases hz : x = 0#8
+        · simp [strncmpLoop, h1.1, hz]; simpa [hz] using hd
+        · simp [strncmpLoop, h1.1, h2.1, hz, hx, hd]
+  | @cons a b l1 l2 hab _ ih =>
+    obtain ⟨k, rfl⟩ : ∃ g, k = g + 1 := ⟨k - 1, by simp at hk; omega⟩
+    simp only [List.cons_append, holds_cons] at h1 h2
+    simp only [List.mem_cons, not_or] at h0
+    have ha : ¬ a = 0#8 := fun e => h0.1 e.symm
+    unfold EqF at hab
+    simp only [List.length_cons] at hk hxy
+    simp [strncmpLoop, h1.1, h2.1, ha, hab,
+      ih (s1 + 1) (s2 + 1) k h1.2 h2.2 h0.2
+        (by rcases hxy with h | h | h
+            · exact Or.inl (by omega)
+            · exact Or.inr (Or.inl h)
+            · exact Or.inr (Or.inr h)) (by omega)]
+
+theorem forall2_eqF_refl (f : Int → Int) (l : List Byte) : Rel2 (EqF f) l l := by
+  induction l with
+  | nil => exact .nil
+  | cons a l ih => exact .cons rfl ih
+
+theorem ucInt_inj {a b : Byte} (h : ucInt a = ucInt b) : a = b := by
+  unfold ucInt at h; exact BitVec.eq_of_toNat_eq (by omega)
+
+theorem eqF_id {a b : Byte} : EqF id a b ↔ a = b :=
+  ⟨fun h => ucInt_inj h, fun h => by subst h; rfl⟩
+
+theorem tolowerI_ucInt (a : Byte) : tolowerI (ucInt a) = ucInt (lowerB a) := by
+  unfold tolowerI ucInt lowerB
+  have := a.isLt
+  by_cases h : 65 ≤ a.toNat ∧ a.toNat ≤ 90
+  · rw [if_pos (by omega), if_pos h, BitVec.toNat_add]
+    simp; omega
+  · rw [if_neg (by omega), if_neg h]
+
+theorem eqF_lower {a b : Byte} : EqF tolowerI a b ↔ lowerB a = lowerB b := by
+  unfold EqF; rw [tolowerI_ucInt, tolowerI_ucInt]
+  exact ⟨ucInt_inj, fun h => by rw [h]⟩
+
+theorem forall2_lower {l1 l2 : List Byte} (h : l1.map lowerB = l2.map lowerB) :
+    Rel2 (EqF tolowerI) l1 l2 := by
+  induction l1 generalizing l2 with
+  | nil => cases l2 with
+    | nil => exact .nil
+    | cons b l2 => simp at h
+  | cons a l1 ih => cases l2 with
+    | nil => simp at h
+    | cons b l2 =>
+      simp only [List.map_cons, List.cons.injEq] at h
+      exact .cons (eqF_lower.mpr h.1) (ih h.2)
+
+theorem lowerB_eq_zero {a : Byte} : lowerB a = 0#8 ↔ a = 0#8 := by
+  unfold lowerB
+  constructor
+  · intro h
+    by_cases c : 65 ≤ a.toNat ∧ a.toNat ≤ 90
+    · rw [if_pos c] at h
+      have := congrArg BitVec.toNat h
+      rw [BitVec.toNat_add] at this; simp at this; omega
+    · rwa [if_neg c] at h
+  · intro h; subst h; decide
+
 end Igris.C08
